@@ -112,9 +112,13 @@ def part_nonfinite(ctx):
 
 def part_typed(ctx):
     from deepdiff.distance import get_numeric_types_distance
-    D, T, TD, DT = datetime.date, datetime.time, datetime.timedelta, datetime.datetime
+    D, T, TD, DT, TZ = datetime.date, datetime.time, datetime.timedelta, datetime.datetime, datetime.timezone
     vals = {
         'datetime': [DT(2020, 1, 1), DT(2020, 1, 1, 0, 0, 1), DT(1969, 12, 31, 23), DT(2020, 1, 2), DT(2020, 1, 1, 0, 0, 0, 5), DT(1950, 6, 1)],
+        # aware datetimes: one wall clock in several zones (different instants), one instant written in several zones (equal)
+        'datetime_aware': [DT(2020, 1, 1, 12, 0, tzinfo=TZ(TD(0))), DT(2020, 1, 1, 12, 0, tzinfo=TZ(TD(hours=5, minutes=30))), DT(2020, 1, 1, 12, 0, tzinfo=TZ(TD(hours=-8))),
+                           DT(2020, 1, 1, 17, 30, tzinfo=TZ(TD(hours=5, minutes=30))), DT(2020, 1, 1, 4, 0, tzinfo=TZ(TD(hours=-8))), DT(2020, 1, 1, 12, 0, 0, 7, tzinfo=TZ(TD(0))),
+                           DT(2021, 3, 4, 5, 6, 7, tzinfo=TZ(TD(hours=9)))],
         'date': [D(2020, 1, 1), D(2020, 1, 2), D(1969, 12, 31), D(1, 1, 1), D(2021, 1, 1)],
         'timedelta': [TD(0), TD(seconds=1), TD(days=1), TD(days=-1), TD(microseconds=5), TD(days=-2, seconds=3)],
         'time': [T(0, 0, 0), T(1, 2, 3), T(1, 2, 4), T(23, 59, 59), T(12, 0, 0), T(1, 2, 3, 1), T(1, 2, 3, 2), T(0, 0, 0, 999999), T(23, 59, 59, 500000)],
@@ -128,6 +132,8 @@ def part_typed(ctx):
             return 'TDIST time %d %d %d %d %d %d %d %d %s' % (a.hour, a.minute, a.second, a.microsecond, b.hour, b.minute, b.second, b.microsecond, m)
         if kind == 'datetime':
             return 'TDIST datetime %d %d %s' % ((a - EPOCH) // US, (b - EPOCH) // US, m)      # naive datetimes: timestamp() reads them in local time (UTC here, asserted below)
+        if kind == 'datetime_aware':
+            return 'TDIST datetime %d %d %s' % ((a - EPOCH.replace(tzinfo=TZ.utc)) // US, (b - EPOCH.replace(tzinfo=TZ.utc)) // US, m)      # the instant, whatever the zone it is written in
         if kind == 'date':
             return 'TDIST date %d %d %s' % (a.toordinal(), b.toordinal(), m)
         return 'TDIST timedelta %d %d %s' % (a // US, b // US, m)
@@ -194,6 +200,33 @@ def has_leaf(v):
     if isinstance(v, (list, tuple, set, frozenset)):
         return any(has_leaf(x) for x in v)
     return False
+
+
+def part_root_numbers(ctx):
+    """two numbers at the root, of the same or of different number types (bool, int, float, Decimal): deep_distance is the number distance,
+    so it stays within [0, cutoff_distance_for_pairs] even where the diff is a type change"""
+    from deepdiff import DeepDiff
+    D = decimal.Decimal
+    nums = [True, False, 0, 1, 5, -3, 2, 7.5, 0.0, -1.0, 1.0, D('4.2'), D('1'), D('0'), 10 ** 6, 1e-9]
+    for a, b in itertools.product(nums, repeat=2):
+        for cfg in ({}, {'ignore_order': True}, {'view': 'tree'}, {'cutoff_distance_for_pairs': 0.6}):
+            ctx.evaluations += 1
+            case = {'kind': 'deep', 't1': repr(a), 't2': repr(b), 'cfg': cfg}
+            try:
+                dd = DeepDiff(a, b, get_deep_distance=True, **cfg)
+            except Exception as e:
+                ctx.violate(case, 'DeepDiff raised %s' % type(e).__name__); continue
+            d = dd.get('deep_distance') if 'deep_distance' in dd else None
+            mx = cfg.get('cutoff_distance_for_pairs', 0.3)
+            ctx.count('deep_root_numbers')
+            if not strict_eq(a, b):
+                ctx.nontriv((repr(a), repr(b), repr(sorted(cfg.items())), 'root numbers'))
+            if d is not None and not (0 <= d <= mx):
+                ctx.violate(case, 'deep_distance %r of two numbers at the root is outside [0, %r]' % (d, mx))
+            if a == b and d not in (None, 0):
+                ctx.violate(case, 'numbers that are == but deep_distance = %r' % d)
+            if a != b and not (d is not None and d > 0):
+                ctx.violate(case, 'different numbers but deep_distance = %r' % d)
 
 
 def part_deep(ctx):
@@ -266,6 +299,7 @@ def run(ctx, impl_only=False):
     part_numbers(ctx)
     part_nonfinite(ctx)
     wit = part_typed(ctx)
+    part_root_numbers(ctx)
     part_deep(ctx)
     wit.update(deep_wit())
     findings = {f['id']: f for f in core.load_findings(ID) if f.get('status') == 'open'}
